@@ -204,7 +204,8 @@ def main():
             'rule': module.RULE,
             'samples': samples[:24],
             'exhaustive': bool(all(a.exhaustive for a in module.ARMS)),
-            'exhaustive_arms': [a.name for a in module.ARMS if a.exhaustive],
+            'exhaustive_arms': [a.name for a in module.ARMS if a.exhaustive and a.name in arm_stats
+                                and arm_stats[a.name].evaluations > 0 and not arm_stats[a.name].unexplored],
             'classes': dict(sorted(total.classes.items())),
             'per_arm': {
                 name: {'evaluations': st.evaluations,
